@@ -35,9 +35,31 @@ excerpt_as_usize = Fn(F, "excerpt_as_usize", slot="syntax", ret="res", props=["C
     ],
 )
 
+excerpt_as_bigint = Fn(F, "excerpt_as_bigint", slot="syntax", ret="res", props=["C05", "C03"],
+    requires=[C("non_empty", "excerpt@.len() >= 1", ["C03"]), C("length_fits", "4 * excerpt@.len() <= usize::MAX", ["C19"])],
+    ensures=[
+        C("value", "res is Ok ==> res->Ok_0.val() == lit_value(excerpt@, radix_of(excerpt@).1, excerpt@.len() as int, radix_of(excerpt@).0)"
+                   " && all_digits(excerpt@, radix_of(excerpt@).1, excerpt@.len() as int, radix_of(excerpt@).0)", ["C05"]),
+        C("size_is_digits_times_bits_per_digit",
+          "res is Ok ==> res->Ok_0.size == lit_size(radix_of(excerpt@).0, lit_digits(excerpt@, radix_of(excerpt@).1, excerpt@.len() as int))", ["C05"]),
+        C("at_least_one_digit", "res is Ok ==> lit_digits(excerpt@, radix_of(excerpt@).1, excerpt@.len() as int) >= 1", ["C05"]),
+    ],
+    rewrites=[R16],
+    loops={1: Loop(invariant=[
+        C("state", "chars@ == excerpt@ && radix_of(chars@) == (radix as int, start as int) && (radix == 2 || radix == 8 || radix == 10 || radix == 16) && start <= index <= chars@.len() && 4 * chars@.len() <= usize::MAX"),
+        C("value", "value@ == lit_value(chars@, start as int, index as int, radix as int) && all_digits(chars@, start as int, index as int, radix as int) && digit_num as int == lit_digits(chars@, start as int, index as int)"),
+    ], decreases="chars@.len() - index",
+       body_start="\t\tproof { lemma_lit_bounds(chars@, start as int, index as int, radix as int); }")},
+    inserts=[
+        Insert("\tlet mut digit_num = 0;", "\tlet ghost start = index;\n", where="before"),
+        Insert("\tif digit_num == 0", "\tproof { lemma_lit_bounds(chars@, start as int, chars@.len() as int, radix as int); }\n", where="before"),
+        Insert("\tlet size = match radix_bits", "\tproof { if radix_bits is Some { let rb = radix_bits->0 as int; let dn = digit_num as int; let ln = chars@.len() as int; assert(rb * dn <= 4 * ln) by (nonlinear_arith) requires 0 <= rb <= 4, 0 <= dn <= ln; } }\n", where="before"),
+    ],
+)
+
 UNIT = Unit(
     "U-literal", "u_literal/skeleton.rs",
-    items=report_fns("stub", "diagn") + [parse_radix, excerpt_as_usize],
+    items=report_fns("stub", "diagn") + cb.items("stub", "util", only=["new"]) + [parse_radix, excerpt_as_usize, excerpt_as_bigint],
     serves=["C05", "C19", "C03"],
     description="syntax::excerpt: numeric literal parsing (radix prefixes, digit grouping, checked accumulation)",
 )
